@@ -662,6 +662,9 @@ func Select(a, i *Term) *Term {
 		}
 		break
 	}
+	if a.Op == "havoc" && selectThroughHavoc != nil && selectThroughHavoc(a, i) {
+		return Select(a.Args[0], i)
+	}
 	if a.Op == "bulk" {
 		// bulk(dst, at, src, soff, cnt): dst with cnt elements of src (from soff) written at [at, at+cnt)
 		dst, at, src, soff, cnt := a.Args[0], a.Args[1], a.Args[2], a.Args[3], a.Args[4]
@@ -715,6 +718,9 @@ func Store(a, i, v *Term) *Term {
 }
 
 var selMemo = map[[2]int]*Term{}
+
+// selectThroughHavoc decides whether a cell certainly keeps its value across a havoc (set in contract.go)
+var selectThroughHavoc func(h, addr *Term) bool
 
 // knownSel: values of immutable global-region cells established by the init probe.
 var knownSel = map[[2]int]*Term{}
@@ -836,6 +842,11 @@ func (t *Term) write(sb *strings.Builder, names map[int]string) {
 		return
 	case "sext":
 		fmt.Fprintf(sb, "((_ sign_extend %s) ", t.Name)
+		t.Args[0].write(sb, names)
+		sb.WriteString(")")
+		return
+	case "havoc":
+		fmt.Fprintf(sb, "(%s ", quoteSym(t.Name))
 		t.Args[0].write(sb, names)
 		sb.WriteString(")")
 		return
